@@ -56,7 +56,7 @@ Source(cols, data, name, rootId) ==
       part |-> <<>>,
       pcls |-> Iota(Len(data)), scls |-> AllOnes(Len(data)),
       pdef |-> TRUE, sdef |-> TRUE,
-      name |-> name, root |-> {rootId}, loose |-> FALSE ]
+      name |-> name, root |-> {rootId}, loose |-> FALSE, cst |-> {} ]
 
 HasUndef(t) == \E r \in DOMAIN t.rows : \E c \in Scope(t) : IsU(t.rows[r][c])
 
@@ -132,7 +132,8 @@ Mutate(t, kvs, nid) ==
                         [c \in Scope(t) \cup newids |->
                             IF c \in newids THEN Ev(es[ixOf(c)], t.rows, r) ELSE t.rows[r][c]]],
             !.pdef = t.pdef /\ (osens => Distinct(t.pcls)),
-            !.sdef = t.sdef /\ ~osens ])
+            !.sdef = t.sdef /\ ~osens,
+            !.cst  = t.cst \cup {newid(i) : i \in {j \in DOMAIN kvs : IsConstExpr(kvs[j].e)}} ])
 
 ---------------------------------------------------------------------------
 (* filter: keep exactly the rows on which every predicate is TRUE *)
@@ -293,7 +294,8 @@ Alias(t, name, keep, nid) ==
             !.rows = [r \in DOMAIN t.rows |-> [d \in newset |-> t.rows[r][inv(d)]]],
             !.part = [i \in DOMAIN t.part |-> new(t.part[i])],
             !.name = name,
-            !.root = {1000 + nid} ])
+            !.root = {1000 + nid},
+            !.cst  = {new(c) : c \in t.cst \cap Scope(t)} ])
 AliasNew(t, keep) == IF keep THEN 0 ELSE Cardinality(Scope(t))
 
 (* collect(): materialise; only the visible columns survive.  keep_col_refs=TRUE keeps the *)
@@ -414,7 +416,7 @@ Join(l, r, on, how, usfx) ==
               pcls |-> AllOnes(Len(rows)), scls |-> AllOnes(Len(rows)),
               pdef |-> l.pdef /\ r.pdef, sdef |-> l.sdef /\ r.sdef,
               name |-> l.name, root |-> l.root \cup r.root,
-              loose |-> needInt ])
+              loose |-> needInt, cst |-> l.cst \cup r.cst ])
 
 ---------------------------------------------------------------------------
 (* union: rows of both tables matched by column NAME under the left        *)
@@ -447,7 +449,7 @@ Union(l, r, distinct) ==
             part |-> <<>>,
             pcls |-> AllOnes(Len(rows)), scls |-> AllOnes(Len(rows)),
             pdef |-> l.pdef /\ r.pdef, sdef |-> l.sdef /\ r.sdef,
-            name |-> l.name, root |-> l.root \cup r.root, loose |-> FALSE ])
+            name |-> l.name, root |-> l.root \cup r.root, loose |-> FALSE, cst |-> {} ])
 
 ---------------------------------------------------------------------------
 (* transfer_col_references(table, ref_source): the data of `table` under the *)
@@ -465,7 +467,8 @@ Transfer(t, s) ==
             !.ty   = [d \in newset |-> t.ty[inv(d)]],
             !.fk   = [d \in newset |-> t.fk[inv(d)]],
             !.rows = [r \in DOMAIN t.rows |-> [d \in newset |-> t.rows[r][inv(d)]]],
-            !.part = [i \in DOMAIN t.part |-> new(t.part[i])] ])
+            !.part = [i \in DOMAIN t.part |-> new(t.part[i])],
+            !.cst  = {} ])
 
 ---------------------------------------------------------------------------
 (* observation of a table: what export / columns() / grouping show *)
